@@ -138,6 +138,25 @@ def rule_pure(m):
                     res.sites += 1
                     res.fail(Finding('D-PURE', f.display(), 'call to ' + d['name'], f.nloc(n['i']),
                                      'call to non-reentrant library function %s() uses hidden shared state' % d['name']))
+    # callables handed to the file routines are taken by value: a reference would make concurrent calls that were given the same
+    # converter object invoke that one object (std::function::operator() const calls its target non-const)
+    seen_sig = set()
+    for f in m.fns:
+        if not f.tname.startswith(NS + 'io::') or f.is_lambda or (f.tname, tuple(f.cptypes)) in seen_sig:
+            continue
+        seen_sig.add((f.tname, tuple(f.cptypes)))
+        for ix, ct in enumerate(f.cptypes):
+            if 'std::function<' in ct:
+                res.sites += 1
+                if ct.rstrip().endswith('&'):
+                    res.fail(Finding('D-PURE', f.display(), 'callable parameter by reference', f.where(),
+                                     'parameter `%s` of %s is a reference to the caller\'s std::function: two threads that write '
+                                     'different files with the same converter object run that object concurrently (its call operator '
+                                     'is invoked non-const through std::function), where a by-value parameter gives every call its own '
+                                     'copy' % (f.pnames[ix] if ix < len(f.pnames) else ix, f.display())))
+                else:
+                    res.ok(dict(function=f.display(), parameter=f.pnames[ix] if ix < len(f.pnames) else ix, passed='by value')
+                           if len(res.samples) < 12 else None, fn=f.display())
     res.require_sites(10, 'fields / variables / casts')
     return res
 
